@@ -56,7 +56,8 @@ ArrLow == [x \in {"8B", "16B", "4H", "8H", "2S", "4S", "1D", "2D", "2H", "4B", "
 \* element (lane) notation: Vn.T[i]; the full-register arrangement in front of the index (Vn.4S[1]) denotes the same lane
 LaneWords(e) == CASE e = "B" -> {"b", "16b"} [] e = "H" -> {"h", "8h"} [] e = "S" -> {"s", "4s"} [] e = "D" -> {"d", "2d"}
                   [] e = "4B" -> {"4b"} [] e = "2H" -> {"2h"} [] OTHER -> {}
-CondNames == <<{"eq"}, {"ne"}, {"cs", "hs"}, {"cc", "lo"}, {"mi"}, {"pl"}, {"vs"}, {"vc"}, {"hi"}, {"ls"}, {"ge"}, {"lt"}, {"gt"}, {"le"}, {"al"}, {"nv"}>>
+\* condition 0b1111 is NV in the Arm ARM; asmjit's documented CondCode name for it is kNA ("na")
+CondNames == <<{"eq"}, {"ne"}, {"cs", "hs"}, {"cc", "lo"}, {"mi"}, {"pl"}, {"vs"}, {"vc"}, {"hi"}, {"ls"}, {"ge"}, {"lt"}, {"gt"}, {"le"}, {"al"}, {"nv", "na"}>>
 
 \* ------------------------------------------------------------------------------------------------------------
 \* mnemonic aliases (Intel SDM vol. 2, appendix B.1.4.7 condition test field: one opcode, several mnemonics)
@@ -74,7 +75,7 @@ Aliases(n) == {n} \cup UNION {S \in AliasSets : n \in S}
 Bytes8ToLimbs(b) == <<b[1] + 256 * b[2], b[3] + 256 * b[4], b[5] + 256 * b[6], b[7] + 256 * b[8]>>
 IntToLimbs(x) ==      \* -2^31 < x < 2^31
   IF x >= 0 THEN <<x % 65536, x \div 65536, 0, 0>>
-  ELSE LET v == (0 - x) - 1 IN <<65535 - (v % 65536), 65535 - (v \div 65536), 65535, 65535>>
+  ELSE LET v == 0 - (x + 1) IN <<65535 - (v % 65536), 65535 - (v \div 65536), 65535, 65535>>
 Pow2 == <<1, 2, 4, 8, 16, 32, 64, 128>>
 Bit(fl, b) == (fl \div b) % 2 = 1
 FMachineCode(fl) == Bit(fl, 1)
@@ -85,7 +86,7 @@ FRegType(fl) == Bit(fl, 1024)
 \* ------------------------------------------------------------------------------------------------------------
 \* tokens -> canonical tokens (syntax removed, signs folded into the value)
 \* ------------------------------------------------------------------------------------------------------------
-Noise == {",", "#", "ptr", "+", ":"}
+Noise == {"#", "ptr", "+", ":"}        \* "," is kept: Match skips it wherever it stands (it separates an explained immediate from a decoration)
 RECURSIVE CanonFrom(_, _)
 CanonFrom(tk, i) ==
   IF i > Len(tk) THEN <<>>
@@ -122,6 +123,8 @@ DotEnd(act, i) == IF i + 1 <= Len(act) /\ act[i].s = "|" THEN DotEnd(act, i + 2)
 DotWords(act, i, e) == {act[j].s : j \in {j \in i..(e - 1) : (j - i) % 2 = 0}}
 MnSpan(act, i, S) ==        \* number of tokens the mnemonic occupies, 0 = does not denote the instruction
   IF i > Len(act) THEN 0
+  ELSE IF i + 2 <= Len(act) /\ act[i + 1].s = "|"                                   \* name|name|name
+       THEN LET e == DotEnd(act, i + 1) IN IF DotWords(act, i, e) \subseteq S THEN e - i ELSE 0
   ELSE IF i + 2 <= Len(act) /\ act[i + 1].s = "." /\ act[i].s \in CCStems /\ ~(act[i].s \in S)
        THEN LET e == DotEnd(act, i + 3) IN
             IF {act[i].s \o c : c \in DotWords(act, i + 2, e)} \subseteq S THEN e - i ELSE 0
@@ -130,7 +133,8 @@ MnSpan(act, i, S) ==        \* number of tokens the mnemonic occupies, 0 = does 
 \* Match(exp, act, j, i): <<0, 0>> when exp[j..] denotes exactly act[i..], else <<index of the offending token, index of the item>>
 RECURSIVE Match(_, _, _, _)
 Match(exp, act, j, i) ==
-  IF j > Len(exp) THEN (IF i > Len(act) THEN <<0, 0>> ELSE <<i, j>>)
+  IF i <= Len(act) /\ act[i].s = "," /\ (j > Len(exp) \/ exp[j].k # "skip") THEN Match(exp, act, j, i + 1)
+  ELSE IF j > Len(exp) THEN (IF i > Len(act) THEN <<0, 0>> ELSE <<i, j>>)
   ELSE LET x == exp[j] IN
     IF x.k = "skip" THEN (IF i <= Len(act) /\ act[i].s = "{" THEN Match(exp, act, j + 1, CloseBrace(act, i) + 1) ELSE Match(exp, act, j + 1, i))
     ELSE IF x.k = "scale1" THEN (IF i + 1 <= Len(act) /\ act[i].s = "*" /\ act[i + 1].s = "<num>" /\ act[i + 1].v = <<1, 0, 0, 0>> THEN Match(exp, act, j + 1, i + 2) ELSE Match(exp, act, j + 1, i))
@@ -234,6 +238,7 @@ A64VecItems(d, id) ==
   ELSE IF d.t # "v" THEN <<Wd(d.t \o ToString(id), "reg")>>
   ELSE IF d.ei >= 0 THEN <<Wd("v" \o ToString(id), "reg"), Wd(".", "vec-arrangement"), Ws(LaneWords(d.arr), "vec-arrangement", d.arr),
                             Wd("[", "vec-lane"), Nm(IntToLimbs(d.ei), "vec-lane"), Wd("]", "vec-lane")>>
+  ELSE IF d.arr = "1Q" THEN <<Wd("q" \o ToString(id), "reg")>>       \* asmjit has no .1Q view: lib_a64forms.h passes the plain 128-bit register
   ELSE IF d.arr \in DOMAIN ArrLow THEN <<Wd("v" \o ToString(id), "reg"), Wd(".", "vec-arrangement"), Wd(ArrLow[d.arr], "vec-arrangement")>>
   ELSE <<Bad("U:arrangement")>>
 
@@ -249,9 +254,13 @@ RECURSIVE A64VecList(_, _)
 A64VecList(d, j) == IF j > Len(d.ids) THEN <<>> ELSE A64VecItems(d, d.ids[j]) \o A64VecList(d, j + 1)
 
 Extends == {"uxtb", "uxth", "uxtw", "uxtx", "sxtb", "sxth", "sxtw", "sxtx"}
-A64ShiftItems(op, amt, role) ==       \* LSL is the default shift (Arm ARM C1.2.3): its name may be omitted; an extend never
+\* LSL is the default shift: its name may be omitted.  A shift by 0 and an UXTX/SXTX of an X register by 0 leave the value as it is
+\* (the same address / operand value is denoted), so they may be omitted altogether.  UXTW / SXTW (and the byte / halfword extends)
+\* say how a W register is widened: their name is part of the denotation even when the amount is 0.
+NameOptional(op, a) == op = "lsl" \/ (a = 0 /\ op \in {"lsr", "asr", "ror", "uxtx", "sxtx"})
+A64ShiftItems(op, amt, role) ==
   LET a == IF amt < 0 THEN 0 ELSE amt IN
-  <<Item({op}, {}, op = "lsl", role, op), Item({}, {IntToLimbs(a)}, a = 0, role, "<num>")>>
+  <<Item({op}, {}, NameOptional(op, a), role, op), Item({}, {IntToLimbs(a)}, a = 0, role, "<num>")>>
 
 A64MemItems(d) ==
   LET base == A64GpItem("x", d.b, d.bsp, "mem-base")
@@ -299,8 +308,13 @@ IsOperandLeg(o) == "leg" \in DOMAIN o /\ o.leg = "O"
 
 DenoteX86(o) == IF IsOperandLeg(o) THEN X86OpsFrom(o, o.fl, 1, FALSE)
                 ELSE <<MnItem(Aliases(o.n), o.n)>> \o X86OpsFrom(o, o.fl, 1, TRUE) \o X86Round(o)
+\* the assembler encodes LDR/STR with an offset the scaled form cannot hold as LDUR/STUR (Arm ARM: preferred disassembly of that
+\* encoding); the logger names the instruction it emitted
+UnscaledOf == [ldr |-> "ldur", ldrb |-> "ldurb", ldrh |-> "ldurh", ldrsb |-> "ldursb", ldrsh |-> "ldursh", ldrsw |-> "ldursw",
+               str |-> "stur", strb |-> "sturb", strh |-> "sturh", prfm |-> "prfum"]
+A64Mnemonics(o) == {o.mn} \cup (IF "leg" \in DOMAIN o /\ o.leg = "L" /\ o.mn \in DOMAIN UnscaledOf THEN {UnscaledOf[o.mn]} ELSE {})
 DenoteA64(o) == IF IsOperandLeg(o) THEN A64OpsFrom(o.o, 1)
-                ELSE <<Wd(o.mn, "mnemonic")>> \o A64CondSuffix(o.o) \o A64OpsFrom(o.o, 1)
+                ELSE <<Ws(A64Mnemonics(o), "mnemonic", o.mn)>> \o A64CondSuffix(o.o) \o A64OpsFrom(o.o, 1)
 
 \* machine-code column: present exactly when FormatFlags::kMachineCode; every pair is the byte appended at that position, or ".."
 \* over ONE contiguous displacement field (1 or 4 bytes) of an instruction that references a label / relocated address
@@ -319,6 +333,16 @@ HexVerdict(o, a64) ==
          THEN "masked bytes are not one displacement field"
     ELSE "ok"
 
+\* the logger prints the options the assembler ended up with ("given or emitted"): "rex" also when the REX prefix was emitted for the
+\* operands' sake, "short" when the rel8 form was chosen
+RexEmitted(o) == o.m = 64 /\ \E j \in 1..Len(o.b) : o.b[j] >= 64 /\ o.b[j] <= 79
+
+ShortEmitted(o) == Len(o.b) <= 4 /\ \E j \in 1..Len(o.ops) : o.ops[j].t \in {"l", "lb"}
+EmittedOptsOk(o, opts) == /\ ExpectedOpts(o.opt) \subseteq opts
+                          /\ opts \ ExpectedOpts(o.opt) \subseteq {"rex", "short"}
+                          /\ ("rex" \in opts \ ExpectedOpts(o.opt) => RexEmitted(o))
+                          /\ ("short" \in opts \ ExpectedOpts(o.opt) => ShortEmitted(o))
+
 Verdict(o) ==
   LET act == Canon(o.tk)
       isx == o.a = "x86"
@@ -329,7 +353,7 @@ Verdict(o) ==
       bad == {j \in 1..Len(exp) : exp[j].k = "bad"}
   IN
   IF bad # {} THEN <<"U", exp[CHOOSE j \in bad : TRUE].role>>
-  ELSE IF isx /\ leg # "O" /\ opts # ExpectedOpts(o.opt) THEN <<"R", "prefix", 0, "options", "options">>
+  ELSE IF isx /\ leg # "O" /\ opts # ExpectedOpts(o.opt) /\ ~(leg = "L" /\ EmittedOptsOk(o, opts)) THEN <<"R", "prefix", 0, "options", "options">>
   ELSE LET r == Match(exp, act, 1, pe) IN
     IF r[1] # 0 THEN <<"R", IF r[2] <= Len(exp) THEN exp[r[2]].role ELSE "trailing-text", r[1],
                        IF r[2] <= Len(exp) THEN exp[r[2]].lab ELSE "<end>", IF r[1] <= Len(act) THEN act[r[1]].s ELSE "<end>">>
